@@ -79,6 +79,10 @@ pub enum Points {
 	Enumerate { seed: u64, cap: usize },
 	/// each entry is one history: the listed faults are applied to their attempts
 	Only(Vec<Vec<FaultPoint>>),
+	/// ONE long history: the attempts are cycled through `rounds` times on one configuration; each attempt fails
+	/// with probability `fail_pct` % (kind and place drawn from `seed`); probes after some failures, every 64
+	/// attempts and at the end. (Attempt indices of the derived fault points count through the whole history.)
+	Long { seed: u64, rounds: u32, fail_pct: u8 },
 }
 
 #[derive(Clone, Debug, Serialize, Deserialize)]
@@ -190,6 +194,12 @@ impl Prop for C14 {
 				via: 0,
 			},
 		];
+		if scale.is_none() && rng.chance(1, 40) {
+			// ONE long history on one configuration: hundreds of attempts, many of them failing
+			let rounds = (40 + rng.below(360) as u32) / attempts.len() as u32 + 1;
+			let rounds = if rng.chance(1, 4) { rounds * 4 } else { rounds };
+			return Scn { schema, allow_slow, attempts, probes, points: Points::Long { seed: rng.next_u64(), rounds, fail_pct: *rng.pick(&[5u8, 30, 30, 60, 100]) } };
+		}
 		Scn {
 			schema,
 			allow_slow,
@@ -250,15 +260,50 @@ impl Prop for C14 {
 				}
 			}
 		}
+		let len = scn.attempts.len();
+		let mut total = len;
+		let mut long: Option<u64> = None;
 		let histories: Vec<Vec<FaultPoint>> = match &scn.points {
 			Points::Only(h) => h.clone(),
 			Points::Enumerate { seed, cap } => build_histories(*seed, *cap, &clean),
+			Points::Long { seed, rounds, fail_pct } => {
+				total = len * *rounds as usize;
+				long = Some(*seed);
+				out.count("long_history", 1);
+				let mut rng = Rng::from_seed(*seed);
+				let mut h = vec![];
+				for j in 0..total {
+					let c = &clean[j % len];
+					// (drawn for every attempt, so that a shorter history is a prefix of a longer one)
+					let coin = rng.below(100) < *fail_pct as u64;
+					let fault = if rng.chance(2, 3) || c.bytes.is_empty() {
+						FaultSpec::Poison(Poison { at_call: rng.usize(c.calls.max(1)), kind: *rng.pick(&KINDS) })
+					} else {
+						FaultSpec::SinkError { after_bytes: rng.below(c.bytes.len() as u64 + 1), kind: IoErrKind::Other }
+					};
+					if coin {
+						h.push(FaultPoint { attempt: j, fault });
+					}
+				}
+				vec![h]
+			}
 		};
 		let mut digest = Fnv::new();
 		'hist: for h in &histories {
 			let mut cfg = new_config(&schema, scn.allow_slow);
-			for (j, a) in scn.attempts.iter().enumerate() {
-				let fault = h.iter().find(|f| f.attempt == j).map(|f| &f.fault);
+			let mut next_fault = 0usize;
+			for j in 0..total {
+				let a = &scn.attempts[j % len];
+				let clean = |k: usize| &clean[k % len];
+				let fault = if long.is_some() {
+					// (sorted by attempt)
+					while next_fault < h.len() && h[next_fault].attempt < j {
+						next_fault += 1;
+					}
+					h.get(next_fault).filter(|f| f.attempt == j).map(|f| &f.fault)
+				} else {
+					h.iter().find(|f| f.attempt == j).map(|f| &f.fault)
+				};
 				let (poison, sink) = match fault {
 					None => (None, SimSink::all()),
 					Some(FaultSpec::Poison(p)) => (Some(*p), SimSink::all()),
@@ -271,7 +316,7 @@ impl Prop for C14 {
 				out.evals += 1;
 				out.steps += sink.calls();
 				digest.u64(sink.digest());
-				let what = || format!("history {h:?}, attempt {j}");
+				let what = || if long.is_some() { format!("long history ({} faults before this point), attempt {j} of {total}", h.iter().filter(|f| f.attempt < j).count()) } else { format!("history {h:?}, attempt {j}") };
 				let (res, fired, depth) = match r {
 					Ok((res, _calls, fired, depth)) => (res, fired, depth),
 					Err(p) => {
@@ -302,17 +347,21 @@ impl Prop for C14 {
 				}
 				if res.is_ok() {
 					// a successful attempt must equal its fresh-configuration bytes
-					if sink.accepted() != clean[j].bytes {
+					if sink.accepted() != clean(j).bytes {
 						out.fail(
 							"C14:successful-attempt-differs-from-fresh-config",
-							format!("{}: got {} bytes, fresh configuration gives {}", what(), sink.accepted_len(), clean[j].bytes.len()),
+							format!("{}: got {} bytes, fresh configuration gives {}", what(), sink.accepted_len(), clean(j).bytes.len()),
 						);
 						break 'hist;
 					}
 				}
 				let failed_now = res.is_err();
 				// probe after a failing attempt and after the last attempt
-				if failed_now || j + 1 == scn.attempts.len() {
+				let probe_now = match long {
+					None => failed_now || j + 1 == total,
+					Some(seed) => (failed_now && (seed ^ j as u64).wrapping_mul(0x9E37_79B9_7F4A_7C15) >> 62 == 0) || j % 64 == 63 || j + 1 == total,
+				};
+				if probe_now {
 					for (pi, pr) in scn.probes.iter().enumerate() {
 						let guard = simalloc::MeasureGuard::start();
 						let r = catch(|| world::crate_encode_to(&mut cfg, &env, &scn.schema, &pr.val, pr.pres, None, Vec::new()));
@@ -358,6 +407,23 @@ impl Prop for C14 {
 
 	fn shrink(&self, scn: &Scn) -> Vec<Scn> {
 		let mut c = vec![];
+		if let Points::Long { seed, rounds, fail_pct } = &scn.points {
+			for r in [rounds / 2, rounds - rounds / 8 - 1, rounds - 1] {
+				if r > 0 && r < *rounds {
+					let mut s = scn.clone();
+					s.points = Points::Long { seed: *seed, rounds: r, fail_pct: *fail_pct };
+					c.push(s);
+				}
+			}
+			if scn.probes.len() > 1 {
+				for i in 0..scn.probes.len() {
+					let mut s = scn.clone();
+					s.probes = vec![scn.probes[i].clone()];
+					c.push(s);
+				}
+			}
+			return c;
+		}
 		if let Points::Enumerate { .. } = &scn.points {
 			// re-derive the histories by executing nothing: we need the enumeration, which depends on clean runs;
 			// cheap trick: run exec's enumeration through a helper scenario per attempt and kind is overkill —
